@@ -174,11 +174,133 @@ func (g *gen) appSend() {
 	}
 }
 
+// scripted multi-step scenarios around known-delicate paths; each leaves the session wherever it ends up
+func (g *gen) scenario() {
+	t := g.tgt()
+	dup := func(typ string, seq int) msgT {
+		m := g.base(typ, seq)
+		m.possdup = fVal(Bool(true))
+		m.otime = fVal(Int(-5))
+		return m
+	}
+	gapfill := func(seq, newseq int, pd bool) msgT {
+		m := g.base("4", seq)
+		m.gapfill = fVal(Bool(true))
+		m.newseq = fVal(Int(newseq))
+		if pd {
+			m.possdup = fVal(Bool(true))
+			m.otime = fVal(Int(-5))
+		}
+		return m
+	}
+	switch g.rng.Intn(9) {
+	case 0: // gap; a kept gap fill that jumps by >= 2 and a kept message at its NewSeqNo; then the replays
+		j := 2 + g.rng.Intn(2)
+		g.incoming(g.base("D", t+2+j)) // opens the gap, kept
+		g.incoming(gapfill(t+2, t+2+j, g.rng.Intn(2) == 0))
+		for q := t; q < t+2; q++ {
+			g.incoming(dup("D", q))
+		}
+		g.incoming(g.base("D", t+3+j))
+	case 1: // test request pending, then a stale / future SendingTime at the expected number
+		g.do(L(Sym("timeout"), Int(1)))
+		m := g.base("D", g.tgt())
+		m.stime = fVal(Int([]int{-100000, 100000, -(g.c.maxLat + 30), g.c.maxLat + 30}[g.rng.Intn(4)]))
+		g.incoming(m)
+	case 2: // test request pending, then a duplicate, then silence
+		g.do(L(Sym("timeout"), Int(1)))
+		g.incoming(dup("D", g.tgt()-1))
+		g.do(L(Sym("timeout"), Int(1)))
+		g.do(L(Sym("timeout"), Int(0)))
+	case 3: // recovery, test request pending, an early message, then the replays
+		g.incoming(g.base("D", t+3))
+		g.do(L(Sym("timeout"), Int(1)))
+		g.incoming(g.base("8", t+4))
+		for q := t; q < t+3; q++ {
+			g.incoming(dup("D", q))
+		}
+	case 4: // our Logout is out, the application sends, the peer asks for a resend
+		g.do(L(Sym("stop")))
+		g.appSend()
+		m := g.base("2", g.tgt())
+		m.beginseq = fVal(Int(1))
+		m.endseq = fVal(Int(0))
+		g.incoming(m)
+		g.do(L(Sym("flush")))
+	case 5: // chunked recovery with a replay overtaking its predecessor
+		g.incoming(g.base("D", t+5))
+		g.incoming(dup("D", t+1))
+		g.incoming(dup("D", t))
+		g.incoming(dup("D", t+2))
+		g.incoming(gapfill(t+3, t+5, true))
+	case 6: // Reset-mode SequenceReset whose own MsgSeqNum is low and whose NewSeqNo is below the expected number
+		m := g.base("4", 1+g.rng.Intn(2))
+		m.newseq = fVal(Int(t - 1 - g.rng.Intn(2)))
+		if g.rng.Intn(2) == 0 {
+			m.gapfill = fVal(Bool(false))
+		}
+		g.incoming(m)
+		g.incoming(g.base("D", g.tgt()))
+	case 7: // a too-low duplicate while recovering, twice
+		g.incoming(g.base("D", t+3))
+		g.incoming(dup("D", t))
+		g.incoming(dup("D", t))
+		g.incoming(dup("D", t-1))
+		g.incoming(dup("D", t+1))
+		g.incoming(dup("D", t+2))
+	case 8: // a resend request with refusals at the tail, persistence on or off
+		g.appSend()
+		g.appSend()
+		g.do(L(Sym("flush")))
+		m := g.base("2", g.tgt())
+		s := g.snd()
+		m.beginseq = fVal(Int(1))
+		m.endseq = fVal(Int([]int{0, s, s - 1, s + 1}[g.rng.Intn(4)]))
+		m.refuse = []int{s - 1}
+		if g.rng.Intn(2) == 0 {
+			m.refuse = append(m.refuse, s-2)
+		}
+		g.incoming(m)
+	}
+}
+
 // one peer action while the session is (believed) connected
 func (g *gen) peerStep() {
+	if g.rng.Intn(9) == 0 && !strings.Contains(g.r.v.StateShape(), "log") {
+		g.scenario()
+		return
+	}
 	shape := g.r.v.StateShape()
 	inResend := strings.Contains(shape, "resend")
 	t := g.tgt()
+	if strings.HasPrefix(shape, "(pending") && g.rng.Intn(10) < 5 {
+		// a test request is outstanding: whatever arrives next must cancel the pending disconnect
+		switch g.pick(4, 3, 3, 2, 2, 4) {
+		case 5: // a defective message at the expected number (header checks still apply while pending)
+			m := g.base([]string{"D", "0", "8"}[g.rng.Intn(3)], t)
+			g.perturb(&m)
+			g.incoming(m)
+		case 0: // a duplicate below the expected number
+			m := g.base("D", t-1-g.rng.Intn(2))
+			m.possdup = fVal(Bool(true))
+			m.otime = fVal(Int(-5))
+			g.incoming(m)
+		case 1: // in sequence
+			g.incoming(g.base([]string{"D", "0"}[g.rng.Intn(2)], t))
+		case 2: // early
+			g.incoming(g.base("D", t+1+g.rng.Intn(3)))
+		case 3:
+			g.do(L(Sym("timeout"), Int(g.rng.Intn(2))))
+		case 4:
+			m := g.base("4", t)
+			m.gapfill = fVal(Bool(true))
+			m.possdup = fVal(Bool(true))
+			m.otime = fVal(Int(-5))
+			m.newseq = fVal(Int(t + 1 + g.rng.Intn(3)))
+			g.incoming(m)
+		}
+		return
+	}
 	if inResend && g.rng.Intn(10) < 7 {
 		// the peer replays: messages at the expected number as PossDup, or gap fills spanning several numbers
 		switch g.pick(8, 4, 2, 2, 1) {
@@ -212,7 +334,7 @@ func (g *gen) peerStep() {
 		}
 		return
 	}
-	switch g.pick(30, 10, 6, 6, 5, 6, 4, 3, 8, 6, 4, 3, 2, 2, 2, 2) {
+	switch g.pick(30, 10, 6, 6, 5, 6, 4, 3, 8, 6, 6, 3, 2, 2, 2, 2, 1) {
 	case 0: // in-sequence application message
 		m := g.base([]string{"D", "8", "F"}[g.rng.Intn(3)], t)
 		if g.rng.Intn(4) == 0 {
@@ -311,10 +433,17 @@ func (g *gen) peerStep() {
 		g.do(L(Sym("stop")))
 	case 15:
 		g.do(L(Sym("inclosed")))
+	case 16:
+		g.do(L(Sym("resettime")))
 	}
 }
 
 func (g *gen) logonExchange() {
+	if g.rng.Intn(12) == 0 {
+		// a first connection whose handshake never completes
+		g.do(L(Sym("connect")))
+		g.do(L(Sym("timeout"), Int(2)))
+	}
 	g.do(L(Sym("connect")))
 	t := g.tgt()
 	m := g.base("A", t)
